@@ -1,7 +1,8 @@
 #!/venv/bin/python
 """Self-validation: property-breaking edits (DESIGN section 10). Each entry: id, property, file, old, new.
   tools/mutants.py suite <id>...      run the repository's test suite with the edit in a scratch clone
-  tools/mutants.py check <id> <CHECK>...  apply to /repo, run the quick checks, undo
+  tools/mutants.py check <id> <CHECK>...  apply to a scratch worktree, run the quick checks against it
+  tools/mutants.py all [PROP...]          every edit against the check of its property
 """
 import os
 import shutil
@@ -74,18 +75,22 @@ def suite(ids):
 
 
 def check(mid, checks):
+    """the edit is applied to a scratch worktree of /repo's HEAD under /tmp (removed afterwards); the checks run against it (VERIF_REPO)"""
     m = find(mid)
-    subprocess.run(["git", "-C", "/repo", "diff", "--quiet"], check=True)
+    wt = f"/tmp/wt_mut_{mid}"
+    subprocess.run(["git", "-C", "/repo", "worktree", "add", "-q", "--detach", wt, "HEAD"], check=True)
+    V = os.path.dirname(os.path.dirname(os.path.abspath(__file__)))
     try:
-        apply("/repo", m)
+        apply(wt, m)
         for c in checks:
-            r = subprocess.run(["bin/check", c, "--tier", "quick"], cwd=os.path.dirname(os.path.dirname(os.path.abspath(__file__))), capture_output=True, text=True)
+            r = subprocess.run(["bin/check", c, "--tier", "quick"], cwd=V, capture_output=True, text=True, env=dict(os.environ, VERIF_REPO=wt))
             v = [l for l in r.stdout.split("\n") if l.startswith("VIOLATION")]
-            print(f"{mid} on {c}: exit {r.returncode}; {len(v)} VIOLATION lines; first: {(v[0][:260] if v else r.stdout.strip().split(chr(10))[-1][:200])}")
+            print(f"{mid} on {c}: exit {r.returncode}; {len(v)} VIOLATION lines; first: {(v[0][:260] if v else r.stdout.strip().split(chr(10))[-1][:200])}", flush=True)
             if r.returncode not in (0, 1):
                 print(r.stderr[-800:])
+            subprocess.run(["git", "-C", V, "checkout", "--", f"evidence/{c}.json"], check=False)
     finally:
-        subprocess.run(["git", "-C", "/repo", "checkout", "--", "."], check=True)
+        subprocess.run(["git", "-C", "/repo", "worktree", "remove", "--force", wt], check=False)
 
 
 if __name__ == "__main__":
